@@ -328,6 +328,14 @@ def fieldUpdate (st : Strm) (f : Hpack.Field) : Strm :=
 def fieldStep (cfg : Cfg) (st : Strm) (f : Hpack.Field) : Strm × Option SErr :=
   (fieldUpdate st f, fieldVerdict cfg st f)
 
+/-- `maxHeldHeaderFactor` -/
+def heldFactor : Nat := 4
+
+/-- the octets `tail` of a field that is not complete are more than the server carries over to the next frame:
+`sc.maxHeaderList > 0 && len(b) > maxHeldHeaderFactor*sc.maxHeaderList` -/
+def heldTooLong (cfg : Cfg) (tail : Bytes) : Bool :=
+  cfg.maxHeaderList > 0 && (tail.length : Int) > (heldFactor : Int) * cfg.maxHeaderList
+
 /-- the field loop of `handleHeaderFrame` on the reassembled octets `b`.
 Returns the new state, the stream, and `none` (ok) or an error. -/
 def fieldLoop : Nat → Srv → Strm → Bool → Bool → Nat → Bytes → Srv × Strm × Option SErr
@@ -339,7 +347,12 @@ def fieldLoop : Nat → Srv → Strm → Bool → Bool → Nat → Bytes → Srv
       -- `ErrUnexpectedSize`: the size updates read on the way have been applied; what is carried over is
       -- what `nextField` hands back, the unfinished representation without them
       let sk := Hpack.Dec.skipUpdates s.dec blockStart fp b
-      if !endHeaders then ({ s with dec := sk.1 }, { st with prevHdr := sk.2 }, none)
+      if !endHeaders then
+        -- an unfinished field longer than `heldFactor` times the list limit can never decode to one that fits
+        -- (the longest Huffman code has 30 bits): the connection error of the list-size check (F68 repaired)
+        if heldTooLong s.cfg sk.2 then
+          ({ s with dec := sk.1 }, st, some (.goAway Gen.c_EnhanceYourCalm "header field exceeds the maximum header list size"))
+        else ({ s with dec := sk.1 }, { st with prevHdr := sk.2 }, none)
       else ({ s with dec := sk.1 }, st, some (.goAway Gen.c_CompressionError "compression"))
     | .err => (s, st, some (.goAway Gen.c_CompressionError "compression"))
     -- only table size updates were left (`ErrUnexpectedSize` and no octets): no field, nothing carried over
